@@ -148,7 +148,7 @@ def parse_item_block(lines, start, file, path):
         elif b == "body-start":
             tgt = cur_loop if cur_loop is not None else spec
             pending_insert = ("body-start", None, tgt.body_hint)
-        elif re.match(r"(before|after)(#\d+)? ", b):
+        elif re.match(r"(before|after)\??(#\d+)? ", b):
             where, rest = b.split(" ", 1)
             mm = re.match(r"<<<(.*)>>>$", rest.strip(), re.S)
             if not mm:
@@ -671,6 +671,10 @@ def weave_fn(w, spec, text, fn_label, item_index, twin):
             raise WeaveError("insert on bodiless fn %s" % fn_label)
         cnt = text.count(anchor, body_open)
         nth = None
+        optional = "?" in where          # `before? <<<anchor>>>`: a proof hint that goes away with its anchor
+        where = where.replace("?", "")
+        if optional and cnt == 0:
+            continue
         if "#" in where:
             where, nth = where.split("#")
             nth = int(nth)
